@@ -167,7 +167,12 @@ def _frame_obs(ex, c, s, old, ln):
             continue
         r = z3.Const("frame!r", Ref)
         same = z3.Select(arr, r) == z3.Select(a0, r)
-        if na is not None:
+        if ex.schema[key].kind.startswith("map:"):
+            ks = ex.schema[key].kind.split(":")[1]
+            kq = z3.Const("frame!k", {"ref": Ref, "int": z3.IntSort(), "str": z3.IntSort()}[ks])
+            d1, d0 = z3.Select(na, r), z3.Select(n0, r)
+            same = z3.And(d1 == d0, z3.ForAll([kq], z3.Implies(z3.Select(d1, kq), z3.Select(z3.Select(arr, r), kq) == z3.Select(z3.Select(a0, r), kq))))
+        elif na is not None:
             same = z3.And(same, z3.Select(na, r) == z3.Select(n0, r))
             # the value under a None flag is irrelevant
             same = z3.Or(same, z3.And(z3.Select(na, r), z3.Select(n0, r)))
